@@ -265,23 +265,26 @@ fn reader_cells(args: &Args) -> Vec<(ModeSpec, usize, usize, u32)> {
 // files
 
 #[cfg(feature = "mmap")]
-fn file_methods(mode: &ModeSpec, path: &std::path::Path) -> Vec<(&'static str, Result<io::Result<(u64, [u8; 32])>, String>)> {
+fn file_methods(mode: &ModeSpec, path: &std::path::Path, prefix: &[u8]) -> Vec<(&'static str, Result<io::Result<(u64, [u8; 32])>, String>)> {
     let mut out = vec![];
     let fin = |h: &blake3::Hasher| (h.count(), *h.finalize().as_bytes());
     out.push(("update_reader(File)", vcommon::catch(|| {
         let mut h = mode.hasher();
+        h.update(prefix);
         let f = std::fs::File::open(path)?;
         h.update_reader(f)?;
         Ok(fin(&h))
     })));
     out.push(("update_mmap", vcommon::catch(|| {
         let mut h = mode.hasher();
+        h.update(prefix);
         h.update_mmap(path)?;
         Ok(fin(&h))
     })));
     #[cfg(feature = "rayon")]
     out.push(("update_mmap_rayon", vcommon::catch(|| {
         let mut h = mode.hasher();
+        h.update(prefix);
         h.update_mmap_rayon(path)?;
         Ok(fin(&h))
     })));
@@ -290,8 +293,20 @@ fn file_methods(mode: &ModeSpec, path: &std::path::Path) -> Vec<(&'static str, R
 
 #[cfg(feature = "mmap")]
 fn check_file(mode: &ModeSpec, path: &std::path::Path, content: Option<&[u8]>, expect_err: bool, what: &str, rep: &mut Report) {
-    let results = file_methods(mode, path);
-    let expected = content.map(|c| (c.len() as u64, b3spec::hash32(&mode.spec(), c)));
+    check_file_after(mode, path, content, expect_err, what, 0, rep);
+}
+
+/// The file methods on a hasher that has already absorbed `prefix_len` bytes (0 = a new hasher).
+#[cfg(feature = "mmap")]
+fn check_file_after(mode: &ModeSpec, path: &std::path::Path, content: Option<&[u8]>, expect_err: bool, what: &str, prefix_len: usize, rep: &mut Report) {
+    let prefix = vcommon::stream_b(7, prefix_len);
+    let results = file_methods(mode, path, &prefix);
+    let expected = content.map(|c| {
+        let mut all = prefix.clone();
+        all.extend_from_slice(c);
+        (all.len() as u64, b3spec::hash32(&mode.spec(), &all))
+    });
+    let what = &if prefix_len == 0 { what.to_string() } else { format!("{} (hasher already holding {} bytes)", what, prefix_len) };
     for (name, r) in results {
         rep.inc("evaluations");
         rep.inc("file_method_calls");
@@ -360,6 +375,13 @@ pub fn files(args: &Args, rep: &mut Report, child: bool) {
                 check_file(m, &path, Some(&big[..len]), false, &format!("regular file of {} bytes", len), rep);
             }
         }
+        // the same on hashers that are not new: a byte in the chunk buffer, exactly one buffered chunk,
+        // a subtree on the stack plus a partial chunk
+        if len <= 2 || (16382..=16386).contains(&len) || len % 64 == 17 || len >= 65535 {
+            for pl in [1usize, 1024, 2048 + 7] {
+                check_file_after(mode, &path, Some(&big[..len]), false, &format!("regular file of {} bytes", len), pl, rep);
+            }
+        }
     }
     rep.add("distinct_nontrivial", seen);
     rep.sample(json!({"file": "regular file", "lengths": "0..=300, 16384+-70, 65535..65537, 1 MiB+1", "methods": ["update_reader(File)", "update_mmap", "update_mmap_rayon"],
@@ -379,6 +401,7 @@ pub fn files(args: &Args, rep: &mut Report, child: bool) {
     if let Ok(c) = std::fs::read(btf) {
         if c.len() > 16384 {
             check_file(m, btf, Some(&c), false, "/sys/kernel/btf/vmlinux (large, unmappable)", rep);
+            check_file_after(m, btf, Some(&c), false, "/sys/kernel/btf/vmlinux (large, unmappable)", 1025, rep);
             rep.inc("distinct_nontrivial");
             rep.inc("natural_unmappable_file");
         }
